@@ -5,7 +5,7 @@ from . import bits
 PROPERTY = "C27"
 LEVEL = "proof"
 FILES = r"^%s/cds/(algo/(bit_reversal|bitop|base)\.h|details/bitop_generic\.h|compiler/gcc/amd64/bitop\.h|intrusive/details/split_list_base\.h|intrusive/split_list(_rcu|_nogc)?\.h)$" % _run.REPO
-NAMES = r"bit_reversal|bitop|regular_hash|dummy_hash|bucket_no$|parent_bucket$|size_t_cast"
+NAMES = r"bit_reversal|bitop|regular_hash|dummy_hash|bucket_no$|parent_bucket$|size_t_cast|key_compare::operator\(\)|make_compare_from_less::operator\(\)"
 TUS = {
     "quick": ["/verif/drivers/bits.cpp", "test/unit/intrusive-set/intrusive_split_michael_hp.cpp",
               "test/unit/intrusive-set/intrusive_split_michael_rcu_gpb.cpp", "test/unit/intrusive-set/intrusive_split_michael_nogc.cpp"],
@@ -16,7 +16,9 @@ EXPLANATION = (
     "reversal algorithm proves for ALL hashes: regular keys are odd, dummies even, both otherwise the bit-reversed hash. "
     "bucket_no and parent_bucket of the three split-list implementations are evaluated for every table size 2^k / every MSB "
     "position k=0..63 with all other bits symbolic, proving 'hash mod 2^k' and 'clear exactly the top set bit'. A type-level "
-    "lint forbids masks shifted in a type narrower than size_t. Not decided: the contiguity lemma over list order (needs "
+    "lint forbids masks shifted in a type narrower than size_t. The comparators wrapped around the ordered list (key_compare, "
+    "make_compare_from_less for every list kind) order two split-order keys by relational operators on the two unsigned values themselves, never by "
+    "the sign of their difference. Not decided: the contiguity lemma over list order (needs "
     "arithmetic over k and the asm MSB primitive, which is trusted here as returning the MSB index).")
 ASSUMPTIONS = [
     "bitop::MSBnz (inline asm bsr) returns the index of the most significant set bit - the asm itself is outside the domain",
@@ -40,5 +42,54 @@ def r27_3(ctx):
 r27_3.rule_id = "R27.3"
 
 
-RULES = [r27_1, r27_2, r27_3]
-FLOORS = {"R27.1": 6, "R27.2": 6, "R27.3": 6}
+def r27_4(ctx):
+    """the ordered list under a split list is sorted by the split-order key taken as an UNSIGNED integer: the wrapped comparators decide the
+    order of two keys by relational operators applied to the two m_nHash / nHash values themselves.  Ordering by the sign of their difference
+    is not a total order on full-width keys (wrong as soon as two keys are 2^(w-1) or more apart - e.g. an even-hash and an odd-hash key)."""
+    import re
+    from sa.pathsim import PathSim
+    from sa.q import cond_atoms, noepoch, sv_field_path
+
+    def is_hash(sv):
+        return isinstance(sv, tuple) and sv_field_path(sv)[-1:] and sv_field_path(sv)[-1] in ("m_nHash", "nHash")
+
+    def find_diff(sv, d=0):
+        """a subtraction of two split-order keys somewhere inside sv"""
+        if not isinstance(sv, tuple) or d > 8:
+            return None
+        if sv[:2] == ("op", "-") and len(sv) == 4 and has_hash(sv[2]) and has_hash(sv[3]):
+            return sv
+        for x in sv:
+            r = find_diff(x, d + 1) if isinstance(x, tuple) else None
+            if r is not None:
+                return r
+        return None
+
+    def has_hash(sv, d=0):
+        if is_hash(sv):
+            return True
+        return isinstance(sv, tuple) and d < 6 and any(has_hash(x, d + 1) for x in sv if isinstance(x, tuple))
+    n = 0
+    for F in ctx.db.funcs.values():
+        if not re.search(r"split_list::details::.*(key_compare|make_compare_from_less)::operator\(\)$", F.q):
+            continue
+        for p in PathSim(F, bound=2000).run():
+            for atom, tv, bev in cond_atoms(p):
+                a = noepoch(atom)
+                if not (isinstance(a, tuple) and a[:1] == ("op",) and len(a) == 4 and a[1] in ("<", ">", "<=", ">=", "==", "!=")):
+                    continue
+                if not (has_hash(a[2]) or has_hash(a[3])):
+                    continue
+                n += 1
+                diff = find_diff(a) if a[1] in ("<", ">", "<=", ">=") else None
+                ctx.check(diff is None, "R27.4", F, "split-order keys are ordered by comparing the two unsigned key values directly", bev.node,
+                          detail="the order is decided by the sign of the difference %r: not a total order on full-width unsigned keys - keys 2^63 or more apart "
+                          "(an even-hash bucket dummy and an odd-hash key) compare the wrong way round, a bucket is no longer a contiguous run of the list (C27)"
+                          % (diff,), sig="key-order-by-difference")
+    if n < 6:
+        ctx.broken("split-list key comparators not found (%d relational decisions on split-order keys)" % n)
+r27_4.rule_id = "R27.4"
+
+
+RULES = [r27_1, r27_2, r27_3, r27_4]
+FLOORS = {"R27.1": 6, "R27.2": 6, "R27.3": 6, "R27.4": 6}
